@@ -237,7 +237,9 @@ fn item<T: Rec>(r: std::io::Result<T>) -> Sx {
         }
     }
 }
+fn r1_prefix_of(_a: &[Sx], p: &Option<String>) -> Option<String> { p.clone() }
 fn read_both<T: Rec>(prefix: Option<String>, data: &[u8], plan: &[usize], emit: &dyn Fn(Sx)) {
+    let prefix_copy = prefix.clone();
     let mut r1 = Reader::new(Frag { data: data.to_vec(), pos: 0, plan: plan.to_vec(), k: 0 }, prefix.clone());
     let mut it = r1.records::<T>();
     let mut a1: Vec<Sx> = Vec::new();
@@ -247,6 +249,18 @@ fn read_both<T: Rec>(prefix: Option<String>, data: &[u8], plan: &[usize], emit: 
     let r2 = Reader::new(Frag { data: data.to_vec(), pos: 0, plan: plan.to_vec(), k: 0 }, prefix);
     let a2: Vec<Sx> = r2.into_records::<T>().take(data.len() + 3).map(item).collect();
     if a1 != a2 { emit(a("ORACLE-FAIL:records-and-into_records-differ")); }
+    // positional adaptors (nth / skip / step_by go through Iterator::nth) must see the same sequence
+    for k in [1usize, 2, 3] {
+        if k <= a1.len() {
+            let r4 = Reader::new(Frag { data: data.to_vec(), pos: 0, plan: plan.to_vec(), k: 0 }, r1_prefix_of(&a1, &prefix_copy));
+            let a4: Vec<Sx> = r4.into_records::<T>().skip(k).take(data.len() + 3).map(item).collect();
+            if a4 != a1[k..] { emit(a("ORACLE-FAIL:into_records-skip-differs")); }
+            let r5 = Reader::new(Frag { data: data.to_vec(), pos: 0, plan: plan.to_vec(), k: 0 }, r1_prefix_of(&a1, &prefix_copy));
+            let a5: Vec<Sx> = r5.into_records::<T>().step_by(k + 1).take(data.len() + 3).map(item).collect();
+            let e5: Vec<Sx> = a1.iter().step_by(k + 1).cloned().collect();
+            if a5 != e5 { emit(a("ORACLE-FAIL:into_records-step_by-differs")); }
+        }
+    }
     // unfragmented delivery must give the same items
     let mut r3 = Reader::new(data, None::<String>.or(r1_prefix_dummy()));
     let _ = &mut r3;
@@ -295,6 +309,57 @@ pub fn run_wr(args: &[Sx]) -> Sx {
         with_type!(t, read_both, prefix(&args[1]), &data, &plan(&args[4]), emit);
     })
 }
+/// a sink that commits whole lines and fails (hard error, nothing accepted) on the k-th write call
+struct FailSink<'a> { out: &'a mut Vec<u8>, calls: usize, fail_at: usize }
+impl<'a> std::io::Write for FailSink<'a> {
+    fn write(&mut self, buf: &[u8]) -> std::io::Result<usize> {
+        self.calls += 1;
+        if self.calls == self.fail_at { return Err(std::io::Error::new(std::io::ErrorKind::Other, "planned sink error")); }
+        self.out.extend_from_slice(buf);
+        Ok(buf.len())
+    }
+    fn flush(&mut self) -> std::io::Result<()> { Ok(()) }
+}
+fn wrfail_one<T: Rec>(recs: Vec<T>, fail_at: usize, emit: &dyn Fn(Sx)) {
+    // expected output: the lines of exactly those records whose write_record returned Ok, when every record is written
+    // with ONE write call; with several write calls per record a failed record may leave a partial line, so the check is
+    // on the records reported Ok only: each of them must be readable back, in order, right after the previous Ok one
+    let mut out = Vec::new();
+    let mut ok_recs: Vec<String> = Vec::new();
+    {
+        let mut w = Writer::new(FailSink { out: &mut out, calls: 0, fail_at });
+        for r in &recs { if w.write_record(r).is_ok() { ok_recs.push(r.to_string()); } }
+    }
+    let text = String::from_utf8_lossy(&out).into_owned();
+    // every Ok record's line must occur exactly once and in order; nothing of a failed record may follow a complete line of its own
+    let mut pos = 0usize;
+    let mut good = true;
+    for l in &ok_recs {
+        let needle = format!("{}\n", l);
+        match text[pos..].find(&needle) { Some(i) => pos += i + needle.len(), None => { good = false; break; } }
+    }
+    let n_lines = text.matches('\n').count();
+    if !good { emit(a("ORACLE-FAIL:a-record-reported-Ok-is-missing-from-the-output")); }
+    else if n_lines > ok_recs.len() { emit(a("ORACLE-FAIL:a-record-reported-Err-reached-the-output-as-a-complete-line")); }
+    else { emit(a("ok")); }
+}
+/// (wrfail type (recs ...) k): Writer over a sink whose k-th write call fails; judged here (oracle-only)
+pub fn run_wrfail(args: &[Sx]) -> Sx {
+    with_panic(|emit| {
+        let t = args[0].atom();
+        let k = args[2].usize();
+        emit(a("oracle-only"));
+        macro_rules! go { ($build:expr) => { wrfail_one(args[1].tagged("recs").iter().map($build).collect(), k, emit) } }
+        match t {
+            "gr" => go!(|r: &Sx| region(r)),
+            "bed3" => go!(|r: &Sx| bedn::<3>(r.list())),
+            "bed6" => go!(|r: &Sx| bedn::<6>(r.list())),
+            "bgi" => go!(|r: &Sx| { let l = r.list(); BedGraph::<i64>::new(l[0].string(), l[1].u64(), l[2].u64(), l[3].i64()) }),
+            _ => panic!("glue: wrfail type"),
+        }
+    })
+}
+
 /// n consecutive skipped lines, then `tail`; run on a thread with a 256 KiB stack
 pub fn run_skiprun(args: &[Sx]) -> Sx {
     let n = args[0].usize();
